@@ -1,6 +1,7 @@
 import RbV.Ref.Smem
 import RbV.Model.FMDExt
 import RbV.Model.FMDRev
+import RbV.Model.FMDSym
 /-!
 # C06 — FMD-index: SMEMs on both strands, `all_smems`, bi-interval extension
 
@@ -125,18 +126,21 @@ example : checkBi T0 sa0 [67, 67] ⟨5, 6, 2, 3⟩ = false := by decide
 example : SmemsProp T0 sa0 [65, 84, 84] 2 1 [⟨0, 3, 4, 5, 2, 3⟩] := (checkSmems_iff ..).mp (by decide)
 end examples
 
-/-! ## [C, partial] mirror model of `backward_ext` / `forward_ext` / `init_interval_with`
+/-! ## [C] mirror model of `backward_ext` / `forward_ext` / `init_interval_with`
 
 `FMDModel.backwardExt less occ iv a` (`RbV/Model/FMDExt.lean`) follows the Rust loop over `$TGCNAtgcna` line by
 line.  Proved: its **forward** interval and its size are the LF step of C05 (so they are exactly the rows of `a·P`
-on every `LF.Sorted` array).  Not proved (full statement): the reverse-strand lower bound, i.e.
+on every `LF.Sorted` array).  The reverse-strand lower bound, i.e.
 
     IvOf t sa (revcomp P) iv.lowerRev (iv.lowerRev + iv.size) →
     IvOf t sa (revcomp (a :: P)) (backwardExt … iv a).lowerRev ((backwardExt … iv a).lowerRev + (backwardExt … iv a).size)
 
-for `t = fmdText seqs`; it needs (i) strand symmetry of occurrence counts in `fmdText` and (ii) "rows starting with
-`Q` are ordered by the symbol after `Q`", neither of which is available yet.  The driver runs the model next to
-the implementation on every extension chain (tag `model=impl` / `drift`). -/
+for `t = fmdText seqs`, needs (i) strand symmetry of occurrence counts in `fmdText` and (ii) "rows starting with
+`Q` are ordered by the symbol after `Q`"; both are proved below (`strand_symmetry`, `FMDModel.next_mono`), and the
+full statements are `backward_ext_correct` / `forward_ext_correct` at the end of this section (the `…_partial`
+theorems are the stages on the way and stay valid).  Still sampled only: `init_interval_with`, extension of the
+empty string's interval (`init_interval()`), extension of an empty bi-interval, and Li's sweep (`smems`) itself.
+The driver runs the model next to the implementation on every extension chain (tag `model=impl` / `drift`). -/
 
 /-- the order string of the loop is the byte order of the complements: `$ < A < C < G < N < T < a < c < g < n < t`
 read through `dnaCompl` -/
@@ -200,6 +204,49 @@ theorem backward_ext_reverse_fmd_partial (seqs : List (List Nat)) (sa : List Nat
 theorem revcomp_cons (a : Nat) (P : List Nat) : revcomp (a :: P) = revcomp P ++ [dnaCompl a] := by
   simp [revcomp]
 
+/-- **strand symmetry** of an FMD text: for `W` of length ≥ 2 with no sentinel after its first symbol, the number of
+occurrences of `W` in `$·T` (T with the cyclic predecessor of position 0, as the BWT sees it) equals the number of
+occurrences of `revcomp W` in `T = fmdText seqs`, for every list of sequences -/
+theorem strand_symmetry (seqs : List (List Nat)) (W : List Nat) (hW2 : 2 ≤ W.length)
+    (hWns : ∀ k, 1 ≤ k → k < W.length → W[k]? ≠ some 36) :
+    (occurrences W (36 :: fmdText seqs)).length = (occurrences (revcomp W) (fmdText seqs)).length :=
+  FMDSym.strand_symmetry seqs W hW2 hWns
+
+/-- reversal alone never changes the number of occurrences (any strings) -/
+theorem occurrences_revcomp_length (W X : List Nat) :
+    (occurrences W X).length = (occurrences (revcomp W) (revcomp X)).length :=
+  FMDSym.occurrences_revcomp_length W X
+
+/-- **`backward_ext` is correct (full statement).**  Index over `fmdText seqs` (non-empty list of sequences over
+`ACGTNacgtn`), suffix array passing `LF.sortedAllB`, `iv` the non-empty bi-interval of the non-empty DNA string `P`
+(forward rows = rows of `P`, reverse rows = rows of `revcomp P`): then the mirror model of `backward_ext(iv, a)`,
+run on `less`/`occ` of the BWT, is the bi-interval of `a·P`, for every `a` of `ACGTNacgtn`. -/
+theorem backward_ext_correct (seqs : List (List Nat)) (sa P : List Nat) (iv : FMDModel.Bi) (a : Nat)
+    (hne : seqs ≠ []) (hseqs : ∀ s ∈ seqs, ∀ c ∈ s, FMDModel.isDna c = true)
+    (hchk : LF.sortedAllB (fmdText seqs) sa = true)
+    (hP : P ≠ []) (hPd : ∀ q ∈ P, FMDModel.isDna q = true) (ha : FMDModel.isDna a = true)
+    (hbi : FMDSym.BiOf (fmdText seqs) sa P iv) (hpos : 0 < iv.size) :
+    FMDSym.BiOf (fmdText seqs) sa (a :: P)
+      (FMDModel.backwardExt (LF.lessRef (LF.bwtOf (fmdText seqs) sa)) (LF.occRef (LF.bwtOf (fmdText seqs) sa)) iv a) :=
+  FMDSym.backwardExt_correct seqs sa P iv a hne hseqs hchk hP hPd ha hbi hpos
+
+/-- **`forward_ext` is correct (full statement)**: … is the bi-interval of `P·a` -/
+theorem forward_ext_correct (seqs : List (List Nat)) (sa P : List Nat) (iv : FMDModel.Bi) (a : Nat)
+    (hne : seqs ≠ []) (hseqs : ∀ s ∈ seqs, ∀ c ∈ s, FMDModel.isDna c = true)
+    (hchk : LF.sortedAllB (fmdText seqs) sa = true)
+    (hP : P ≠ []) (hPd : ∀ q ∈ P, FMDModel.isDna q = true) (ha : FMDModel.isDna a = true)
+    (hbi : FMDSym.BiOf (fmdText seqs) sa P iv) (hpos : 0 < iv.size) :
+    FMDSym.BiOf (fmdText seqs) sa (P ++ [a])
+      (FMDModel.forwardExt (LF.lessRef (LF.bwtOf (fmdText seqs) sa)) (LF.occRef (LF.bwtOf (fmdText seqs) sa)) iv a) :=
+  FMDSym.forwardExt_correct seqs sa P iv a hne hseqs hchk hP hPd ha hbi hpos
+
+/-- row-level correctness implies the property-level statement the oracle checks (`BiIntervalOf`, decided by
+`checkBi`): size = number of occurrences on both strands, both intervals map to the right occurrence sets -/
+theorem biOf_is_biIntervalOf (T sa P : List Nat) (iv : FMDModel.Bi) (hperm : sa.Perm (List.range T.length))
+    (hP : P ≠ []) (h : FMDSym.BiOf T sa P iv) :
+    BiIntervalOf T sa P ⟨iv.lower, iv.lower + iv.size, iv.lowerRev, iv.lowerRev + iv.size⟩ :=
+  FMDSym.biIntervalOf_of_biOf T sa P iv hperm hP h
+
 section model_examples
 -- T = ATTC$GAAT$, the doc test: backward_ext / forward_ext of the empty interval by `T` = init_interval_with(T)
 private def bw0 : List Nat := LF.bwtOf T0 sa0
@@ -210,6 +257,11 @@ example : FMDModel.forwardExt (LF.lessRef bw0) (LF.occRef bw0) (FMDModel.initInt
 -- A then T forwards: the bi-interval of "AT" accepted by the oracle above (rows 3..5 on both strands)
 example : FMDModel.fwd (FMDModel.forwardExt (LF.lessRef bw0) (LF.occRef bw0) (FMDModel.initIntervalWith (LF.lessRef bw0) 65) 84)
     = (3, 5) := by decide
+-- non-vacuity of `backward_ext_correct`: the doc-test index passes `sortedAllB`, and the model's bi-interval of
+-- "T" extended backwards by "A" is the bi-interval of "AT" accepted by `checkBi` above
+example : LF.sortedAllB T0 sa0 = true := by decide
+example : FMDModel.backwardExt (LF.lessRef bw0) (LF.occRef bw0) (FMDModel.initIntervalWith (LF.lessRef bw0) 84) 65
+    = { lower := 3, lowerRev := 3, size := 2, matchSize := 2 } := by decide
 end model_examples
 
 end RbV.Thm.C06
